@@ -235,7 +235,10 @@ LANGS = ['en', 'en-US', 'de', '*', 'x' * 50, 'e\xf1']
 
 def gen_cookie(rng):
     sid = hashlib.sha1(str(rng.random()).encode()).hexdigest()
-    sidv = pick(rng, [sid, sid, sid[:10], '', '../../etc/passwd', '/abs', 'x/../../y', '"x/../../y"', 'x/../y', 'x/..',
+    sidv = pick(rng, [sid, sid, sid[:10], '', '../../etc/passwd', '/abs', 'x/../../y',
+                      # quoted values with the escapes http.cookies undoes: octal \\ooo and \\" (NUL, '/', LF, 0xE9 ...)
+                      '"a\\000b"', '"\\057etc\\057passwd"', '"x\\057..\\057..\\057y"', '"a\\012b"', '"\\351"', '"a\\"b"',
+                      '"\\\\"', '"' + sid + '\\000"', '"\\000"', '"a\\777b"', '"a\\00"', '"x/../../y"', 'x/../y', 'x/..',
                       'x/../../../../tmp/y', '/../../y', 'x/..//../y', 'x\\..\\..\\y', sid + '/../../' + sid, 'a' * 300, 'a' * 5000, 'x\x00y', '..', '.',
                       'a/b', 'a\\b', 'caf\xe9', '"' + sid + '"', sid + ';', '%2e%2e', 'con', 'a b', '\x7f'])
     parts = []
@@ -917,6 +920,8 @@ def basic_cases(rng):
 SID_TEMPLATES = ['session_id={{sid}}', 'session_id="{{sid}}"', 'session_id={{sid}}; session_id=x',
                  'session_id=x; session_id={{sid}}', 'a=b; session_id={{sid}}; c=d', 'session_id={{sid}}\xe9',
                  'session_id={{sid}}/../x', 'session_id=../{{sid}}', 'session_id={{sid}}/../../x',
+                 'session_id="{{sid}}\\000"', 'session_id="{{sid}}\\057..\\057..\\057x"', 'session_id="\\000{{sid}}"',
+                 'session_id="{{sid}}\\012"', 'session_id="{{sid}}\\351"',
                  'session_id="{{sid}}/../../{{sid}}"', 'session_id=x/../../session-{{sid}}', 'session_id={{sid}} ', 'SESSION_ID={{sid}}',
                  '$Version=1; session_id={{sid}}; $Path=/', 'session_id={{sid}}{{sid}}', 'session_id={{sid}}\x00',
                  'session_id={{sid}}.lock', 'session_id=session-{{sid}}', 'session_id={{sid}}; bad name=1',
@@ -1268,6 +1273,12 @@ def chunked_cases(rng, n=300):
             continue
         else:
             c['maxlen'] = pick(rng, [1, 10, 100, len(data), len(data) + 1, max(1, len(data) - 1)])   # server's size limit
+            if rng.random() < 0.4:
+                # ... reached while the trailer is read
+                trailer = pick(rng, [b'X-T: ' + b'v' * 3000 + b'\r\n', b'X-T: v\r\n' * 400])
+                c['maxlen'] = len(b''.join(chunks)) + pick(rng, [5, 50, 1000])
+                if not any(h[0] == 'Trailer' for h in c['headers']):
+                    c['headers'].append(['Trailer', 'X-T'])
         c['body'] = (b''.join(chunks) + last + trailer + end).decode('latin-1')
         out.append(c)
     return out
